@@ -30,7 +30,7 @@ def run(ctx):
     bad = ctx.gate(COQ_FILES)
     if bad:
         ctx.violation({"kind": "gate", "hits": bad}, nofail=True)
-    pa = ctx.prove(PROPS, clean=(ctx.tier == "thorough"))
+    pa = ctx.prove(PROPS, clean=(COQ_FILES if ctx.tier == "thorough" else False))
     ctx.log("proof ok=%s obligations=%d closed=%d" % (pa["ok"], pa["obligations"], pa["print_assumptions_closed"]))
     vlib.proof_coverage(ctx, pa)
     binp, out = ctx.harness_build("vulns")
